@@ -316,9 +316,28 @@ func (d *Document) generateAppProperties(properties *DocumentProperties) error {
 	return nil
 }
 
+// corePropertiesIn 读取核心属性时使用的结构。
+// CoreProperties 的标签带有命名空间前缀（cp:coreProperties、dc:title……），只适用于写出：encoding/xml 解析时按
+// 本地名称匹配元素，用带前缀的标签解析本库自己写出的 core.xml 会直接失败，已保存的属性因此全部读不回来。
+type corePropertiesIn struct {
+	XMLName     xml.Name `xml:"coreProperties"`
+	Title       *DCText  `xml:"title"`
+	Subject     *DCText  `xml:"subject"`
+	Creator     *DCText  `xml:"creator"`
+	Keywords    *CPText  `xml:"keywords"`
+	Description *DCText  `xml:"description"`
+	Language    *DCText  `xml:"language"`
+	Category    *CPText  `xml:"category"`
+	Version     *CPText  `xml:"version"`
+	Revision    *CPText  `xml:"revision"`
+	Created     *DCDate  `xml:"created"`
+	Modified    *DCDate  `xml:"modified"`
+	LastPrinted *DCDate  `xml:"lastPrinted"`
+}
+
 // parseCoreProperties 解析核心属性
 func (d *Document) parseCoreProperties(data []byte, properties *DocumentProperties) error {
-	var coreProps CoreProperties
+	var coreProps corePropertiesIn
 	if err := xml.Unmarshal(data, &coreProps); err != nil {
 		return err
 	}
